@@ -6,10 +6,10 @@ import (
 	blocks "github.com/ipfs/go-block-format"
 	logging "github.com/ipfs/go-log/v2"
 	"github.com/ipld/go-ipld-prime"
-	"github.com/ipld/go-ipld-prime/codec/dagcbor"
 	cidlink "github.com/ipld/go-ipld-prime/linking/cid"
 
 	"github.com/ipfs/go-graphsync"
+	gsmsg "github.com/ipfs/go-graphsync/message"
 	"github.com/ipfs/go-graphsync/messagequeue"
 )
 
@@ -111,13 +111,7 @@ func (eo extensionOperation) build(builder *messagequeue.Builder) {
 }
 
 func (eo extensionOperation) size() uint64 {
-	if eo.extension.Data == nil {
-		return 0
-	}
-	// any erorr produced by this call will be picked up during actual encode, so
-	// we can defer handling till then and let it be zero for now
-	len, _ := dagcbor.EncodedLength(eo.extension.Data)
-	return uint64(len)
+	return gsmsg.ExtensionDataSize(eo.extension)
 }
 
 type blockOperation struct {
